@@ -35,7 +35,11 @@ VerdictBytes(t) ==
    observed tokens = reference tokens, and the reference has the key token in place *)
 CtxOK(key, c) ==
     LET want == Lex(c.pre) \o <<Tok("general", key)>> \o Lex(c.post)
-    IN c.err = "" /\ c.toks = want /\ Lex(c.pre \o key \o c.post) = want
+    IN IF "loose" \in DOMAIN c /\ c.loose
+       \* after a digraph prefix (k, ∆, ø, Þ, ¨) most characters are absorbed into a two-character element;
+       \* where the documented scanning keeps the key apart (the branch separator), so must the implementation
+       THEN c.err = "" /\ (Lex(c.pre \o key \o c.post) = want => c.toks = want)
+       ELSE c.err = "" /\ c.toks = want /\ Lex(c.pre \o key \o c.post) = want
 
 VerdictKey(t) ==
     IF \E i \in 1..Len(t.key) : ~InCodepage(t.key[i]) THEN "violation:not-in-codepage"
